@@ -47,7 +47,7 @@ func (in *Interp) bytesOf(v Value) []*Term {
 	case Str:
 		return in.strBytes(x)
 	case Slice:
-		if x.Arr != nil && x.Arr.Num != nil {
+		if x.Arr.opaque() {
 			panic(abortf("byte-level use of numeric string"))
 		}
 		b := make([]*Term, x.Len)
@@ -353,6 +353,24 @@ func init() {
 		}
 		return Tuple{s.Num, Iface{}}, true
 	})
+	reg(`strconv.FormatInt`, func(in *Interp, th *Thread, fn *ssa.Function, args []Value) (Value, bool) {
+		n := in.asTerm(args[0])
+		base := in.asTerm(args[1])
+		if n.IsConst() && base.IsConst() {
+			return Str{S: strconv.FormatInt(int64(n.C), int(base.C))}, true
+		}
+		if base.IsConst() && base.C == 10 {
+			return Str{Num: n}, true
+		}
+		return nil, false
+	})
+	reg(`strconv.Itoa`, func(in *Interp, th *Thread, fn *ssa.Function, args []Value) (Value, bool) {
+		n := in.asTerm(args[0])
+		if n.IsConst() {
+			return Str{S: strconv.Itoa(int(int64(n.C)))}, true
+		}
+		return Str{Num: n}, true
+	})
 	reg(`strconv.ParseFloat`, func(in *Interp, th *Thread, fn *ssa.Function, args []Value) (Value, bool) {
 		return in.parseFloat(in.str(args[0])), true
 	})
@@ -519,7 +537,7 @@ func (in *Interp) toGo(iv Iface) (interface{}, bool) {
 		return x.C, true
 	case Slice:
 		if s, ok := iv.T.Underlying().(*types.Slice); ok && isByte(s.Elem()) {
-			if x.Arr != nil && x.Arr.Num != nil {
+			if x.Arr.opaque() {
 				return nil, false
 			}
 			buf := make([]byte, x.Len)
